@@ -17,6 +17,14 @@ fn do_res_raw(ctx: &mut Ctx, f: &[BigInt], g: &[BigInt]) {
     let ans = run(|| resultant(&pf, &pg).to_string());
     ctx.emit("res.raw", &[show_ints(f), show_ints(g)], ans);
 }
+/// process level: `rust-number-theory <config>` with to_find = resultant (lists may end in zeros)
+fn do_cli_res(ctx: &mut Ctx, f: &[BigInt], g: &[BigInt]) {
+    let cfg = format!("to_find = ['resultant']\n[input]\npolynomials = [{}, {}]\n", toml_list(f), toml_list(g));
+    if let Some(out) = run_cli(&cfg) {
+        let ans = if out.starts_with("panic") { out } else { json_field(&out, "resultant").unwrap_or_else(|| "noanswer".into()) };
+        ctx.emit("cli.res", &[show_ints(f), show_ints(g)], ans);
+    }
+}
 fn do_resq(ctx: &mut Ctx, f: &[BigRational], g: &[BigRational]) {
     let (pf, pg) = (pq(f), pq(g));
     let ans = run(|| show_rat(&resultant_rational(&pf, &pg)));
@@ -39,6 +47,7 @@ fn do_resscale_z(ctx: &mut Ctx, s: &BigInt, t: &BigInt, f: &[BigInt], g: &[BigIn
 
 pub fn replay(ctx: &mut Ctx, f: &[&str]) -> bool {
     match (f[0], f.len()) {
+        ("cli.res", 3) => do_cli_res(ctx, &parse_ints(f[1]), &parse_ints(f[2])),
         ("res", 3) => do_res(ctx, &parse_ints(f[1]), &parse_ints(f[2])),
         ("res.raw", 3) => do_res_raw(ctx, &parse_ints(f[1]), &parse_ints(f[2])),
         ("resq", 3) => do_resq(ctx, &parse_rats(f[1]), &parse_rats(f[2])),
@@ -239,7 +248,42 @@ pub fn poly_deg_q(ctx: &mut Ctx, deg: usize, bits: u64) -> Vec<BigRational> {
     v
 }
 
+/// process-level cases (only when RNT_BIN is set): unit tests, lists ending in zeros, random pairs
+fn generate_cli(ctx: &mut Ctx) {
+    let iv = |v: &[i64]| v.iter().map(|x| BigInt::from(*x)).collect::<Vec<_>>();
+    for (f, g) in [
+        (iv(&[5, 0, 2, 0, 6, 9]), iv(&[6, 6, 6, 1, 7])),
+        (iv(&[-1]), iv(&[-1, -1, 0])),
+        (iv(&[-1]), iv(&[-1, 0])),
+        (iv(&[1, 1, 0, 0]), iv(&[2, 0, 1, 0])),
+        (iv(&[0]), iv(&[1, 2])),
+        (iv(&[3]), iv(&[5])),
+        (iv(&[-7, 1]), iv(&[-3, 1])),
+    ] {
+        do_cli_res(ctx, &f, &g);
+    }
+    for _ in 0..ctx.pick(40, 400) {
+        let mut f = crate::c09::rand_poly(ctx, 7, 40);
+        let mut g = crate::c09::rand_poly(ctx, 7, 40);
+        if f.is_empty() {
+            f.push(BigInt::from(1));
+        }
+        if g.is_empty() {
+            g.push(BigInt::from(2));
+        }
+        if ctx.rng.chance(1, 3) {
+            f.push(BigInt::from(0));
+        }
+        if ctx.rng.chance(1, 3) {
+            g.push(BigInt::from(0));
+            g.push(BigInt::from(0));
+        }
+        do_cli_res(ctx, &f, &g);
+    }
+}
+
 pub fn generate(ctx: &mut Ctx) {
+    generate_cli(ctx);
     // the four unit tests of resultant.rs and Res(x - a, x - b) = a - b
     let iv = |v: &[i64]| v.iter().map(|x| BigInt::from(*x)).collect::<Vec<_>>();
     for (f, g) in [
